@@ -1,0 +1,133 @@
+//! Verification hook: the pure planning pipeline (read → compare → render) and candidate
+//! evaluation, driven with plain data.
+use std::str::from_utf8;
+
+use bgpfu::RpslEvaluator;
+use ip::{concrete::PrefixRange, Ipv4, Ipv6};
+use netconf::message::{ReadXml, WriteXml};
+use quick_xml::{events::Event, NsReader, Writer};
+
+use super::{Candidate, Evaluate, Evaluated, Installed, Load, Name, Policies, Ranges};
+
+/// `(name, filter expression, Some((ipv4 ranges, ipv6 ranges)) | None)`, ranges in `FromStr` syntax.
+pub type EvalInput = (String, String, Option<(Vec<String>, Vec<String>)>);
+/// `(name, filter expression, Some((ipv4 ranges, ipv6 ranges)) | None)`, ranges in `Display` syntax.
+pub type EvalOutput = (String, String, Option<(Vec<String>, Vec<String>)>);
+/// `(name, ipv4 ranges, ipv6 ranges)`, ranges in `Display` syntax.
+pub type InstalledOutput = (String, Vec<String>, Vec<String>);
+
+/// Run `T::read_xml` the way `DataReply<T>` does: positioned just after the `<data>` start tag of
+/// the given `rpc-reply` document.
+fn read_data<T: ReadXml>(reply: &str) -> Result<T, String> {
+    let mut reader = NsReader::from_str(reply);
+    _ = reader.trim_text(true);
+    loop {
+        match reader.read_resolved_event().map_err(|e| e.to_string())? {
+            (_, Event::Start(tag)) if tag.local_name().as_ref() == b"data" => {
+                return T::read_xml(&mut reader, &tag).map_err(|e| format!("{e}"));
+            }
+            (_, Event::Eof) => return Err("no <data>".to_string()),
+            _ => continue,
+        }
+    }
+}
+
+fn parse_ranges<A: ip::Afi>(v: &[String]) -> Result<Ranges<A>, String>
+where
+    PrefixRange<A>: std::str::FromStr,
+    <PrefixRange<A> as std::str::FromStr>::Err: std::fmt::Display,
+{
+    v.iter()
+        .map(|s| s.parse::<PrefixRange<A>>().map_err(|e| format!("{s}: {e}")))
+        .collect()
+}
+
+fn show_ranges<A: ip::Afi>(r: &Ranges<A>) -> Vec<String> {
+    let mut v: Vec<String> = r.iter().map(ToString::to_string).collect();
+    v.sort();
+    v
+}
+
+pub fn read_candidates(reply: &str) -> Result<Vec<(String, String)>, String> {
+    let p: Policies<Candidate> = read_data(reply)?;
+    let mut v: Vec<_> = p
+        .map
+        .iter()
+        .map(|(n, c)| (n.to_string(), c.filter_expr.to_string()))
+        .collect();
+    v.sort();
+    Ok(v)
+}
+
+pub fn read_installed(reply: &str) -> Result<Vec<InstalledOutput>, String> {
+    let p: Policies<Installed> = read_data(reply)?;
+    let mut v: Vec<_> = p
+        .map
+        .iter()
+        .map(|(n, i)| (n.to_string(), show_ranges(&i.ipv4), show_ranges(&i.ipv6)))
+        .collect();
+    v.sort();
+    Ok(v)
+}
+
+/// `compare` + `write_xml` of every update, in the order `Load::updates` yields them.
+pub fn plan(installed_reply: &str, evaluated: &[EvalInput]) -> Result<Vec<String>, String> {
+    let installed: Policies<Installed> = read_data(installed_reply)?;
+    let mut ev = Policies::<Evaluated>::default();
+    for (name, expr, ranges) in evaluated {
+        let filter_expr = expr.parse().map_err(|e| format!("{expr}: {e}"))?;
+        let ranges = match ranges {
+            None => None,
+            Some((v4, v6)) => Some((parse_ranges::<Ipv4>(v4)?, parse_ranges::<Ipv6>(v6)?)),
+        };
+        _ = ev.map.insert(
+            Name::new(name),
+            Evaluated {
+                filter_expr,
+                ranges,
+            },
+        );
+    }
+    ev.compare(&installed)
+        .updates()
+        .map(|update| {
+            let mut buf = Vec::new();
+            update
+                .write_xml(&mut Writer::new(&mut buf))
+                .map_err(|e| e.to_string())?;
+            Ok(from_utf8(&buf).map_err(|e| e.to_string())?.to_string())
+        })
+        .collect()
+}
+
+/// `Policies<Candidate>::evaluate` on one evaluator connected to `host:port`.
+pub fn evaluate(
+    candidates: &[(String, String)],
+    host: &str,
+    port: u16,
+) -> Result<Vec<EvalOutput>, String> {
+    let mut cands = Policies::<Candidate>::default();
+    for (name, expr) in candidates {
+        let filter_expr = expr.parse().map_err(|e| format!("{expr}: {e}"))?;
+        _ = cands
+            .map
+            .insert(Name::new(name), Candidate { filter_expr });
+    }
+    let mut evaluator = RpslEvaluator::new(host, port).map_err(|e| format!("connect: {e}"))?;
+    let evaluated = cands.evaluate(&mut evaluator);
+    let mut v: Vec<_> = evaluated
+        .map
+        .iter()
+        .map(|(n, e)| {
+            (
+                n.to_string(),
+                e.filter_expr.to_string(),
+                e.ranges
+                    .as_ref()
+                    .map(|(a, b)| (show_ranges(a), show_ranges(b))),
+            )
+        })
+        .collect();
+    v.sort();
+    Ok(v)
+}
